@@ -92,3 +92,51 @@ package casket
 //@   ensures [no_listener_leak] result != nil ==> opened == old(opened)
 //@   ensures [all_listening] result == nil ==> opened == old(opened) + 2*len(serverList)
 //@   loop 1 invariant 0 <= #i && #i <= len(serverList) && opened == old(opened) + 2*#i && inst != nil
+
+//@ unit restart props=C16,C08 filter=`casket\.Instance\)\.Restart$|casket\.Instance\)\.Restart\$1$`
+//@ // reload: the old instance's restart callbacks first; a failure (an error OR a panic, at any stage) runs the
+//@ // restart-failed callbacks once each, stops and shuts down nothing of the old instance, and is REPORTED to the caller
+//@ // together with the old instance (the signal handler restores the event hooks only on a reported failure);
+//@ // success stops the old instance once and runs its shutdown callbacks once each. Ghost counters at the call sites.
+//@ ghost nRestart int
+//@ ghost nFailed int
+//@ ghost nShut int
+//@ ghost nStop int
+//@ ghost nStart int
+//@ func startWithListenerFds
+//@   may_panic
+//@   modifies ghost:nStart
+//@   ensures nStart == old(nStart) + 1
+//@   ensures_on_panic nStart <= old(nStart) + 1
+//@ func (*Instance).Stop
+//@   modifies ghost:nStop
+//@   ensures nStop == old(nStop) + 1
+//@ extern fmt.Errorf
+//@   ensures result != nil
+//@ extern (*sync.WaitGroup).Add
+//@ extern (*sync.WaitGroup).Done
+//@ func EmitEvent
+//@ func (*Instance).Restart$1
+//@   recovers
+//@   requires i != nil
+//@   modifies ghost:nFailed, ptr:error, ptr:*github.com/tmpim/casket.Instance
+//@   at call dynamic#1 do nFailed = nFailed + 1
+//@   ensures [failed_callbacks_on_failure] (old(err) != nil || panicking()) ==> nFailed == old(nFailed) + len(i.OnRestartFailed)
+//@   ensures [quiet_on_success] (old(err) == nil && !panicking()) ==> nFailed == old(nFailed)
+//@   ensures [panic_is_reported] panicking() ==> (inst == i && err != nil)
+//@   ensures [results_kept_otherwise] !panicking() ==> (inst == old(inst) && err == old(err))
+//@   ensures [receiver_untouched] i == old(i)
+//@   loop 1 invariant 0 <= #i && #i <= len(i.OnRestartFailed) && nFailed == old(nFailed) + #i && i != nil
+//@ func (*Instance).Restart
+//@   requires i != nil && i.wg != nil && nRestart == 0 && nFailed == 0 && nShut == 0 && nStop == 0 && nStart == 0
+//@   modifies ghost:nRestart, ghost:nFailed, ghost:nShut, ghost:nStop, ghost:nStart, ptr:error, ptr:*github.com/tmpim/casket.Instance
+//@   at call dynamic#1 do nRestart = nRestart + 1
+//@   at call dynamic#2 do nShut = nShut + 1
+//@   at call startWithListenerFds assert [restart_callbacks_first] nRestart == len(i.OnRestart) && nStop == 0 && nShut == 0
+//@   at call (*Instance).Stop assert [old_stops_after_new_started] nStart == 1 && nShut == 0
+//@   ensures [failure_keeps_old_instance] err != nil ==> inst == i
+//@   ensures [failed_callbacks_iff_failure] (err != nil ==> nFailed == len(i.OnRestartFailed)) && (err == nil ==> nFailed == 0)
+//@   ensures [nothing_of_old_stopped_before_new_runs] nStart == 0 ==> (nStop == 0 && nShut == 0)
+//@   ensures [success_runs_each_shutdown_once] err == nil ==> (inst != nil && nStart == 1 && nStop == 1 && nShut == len(i.OnShutdown) && nRestart == len(i.OnRestart))
+//@   loop 1 invariant 0 <= #i && #i <= len(i.OnRestart) && nRestart == #i && nFailed == 0 && nShut == 0 && nStop == 0 && nStart == 0 && err == nil
+//@   loop 3 invariant 0 <= #i && #i <= len(i.OnShutdown) && nShut == #i && nFailed == 0 && nStop == 1 && nStart == 1 && nRestart == len(i.OnRestart) && err == nil
